@@ -43,6 +43,11 @@ THEOREMS = [
     "C16_linked_blank",
     "C16_linked_step",
     "C16_linked",
+    "C16_load",
+    "C16_load_contain",
+    "C16_children",
+    "C16_children_geometry",
+    "C16_children_conflict",
 ]
 
 KINDS = links.KINDS
